@@ -18,11 +18,22 @@ def iv_chain(tier, required):
                  mc=[iv_mc(tier), ("StatsCI", "StatsCI.cfg", {}, 1)], env={"FAMILY": "chain", "IV_N": n}, required=required)
 
 
+def tlaps_lemmas(tier, seed, out):
+    """thorough tier only, informational: re-prove the unbounded interval lemmas with TLAPS"""
+    if tier != "thorough":
+        return
+    p = subprocess.run([os.path.join(driver.ROOT, "tools", "prove.sh"), "600"], stdout=subprocess.PIPE, stderr=subprocess.STDOUT, text=True)
+    m = [l for l in p.stdout.splitlines() if "obligations" in l]
+    out.extra["tlaps_unbounded_interval_lemmas"] = m[-1].strip() if m else ("not proved: " + p.stdout[-200:])
+    driver.log("[tlaps] " + out.extra["tlaps_unbounded_interval_lemmas"])
+
+
 def C07(tier, seed):
     req = ["C07.contains", "C07.range_contains", "C07.range_bounds", "C07.range_contains_consistent",
            "C07.intersects", "C07.includes", "C07.is_included_in"]
     return {
         "stages": [iv_chain(tier, req)],
+        "pre": [tlaps_lemmas],
         "exhaustive": True,
         "rule": "TLC enumerates every ordered pair of well-formed intervals (3 kinds) over a chain of N bound "
                 "positions (N=5 quick, 7 thorough) plus two outer witnesses, and every (interval, probe) pair; "
@@ -35,6 +46,7 @@ def C07(tier, seed):
 def C15(tier, seed):
     return {
         "stages": [iv_chain(tier, ["C15.partial_cmp", "C15.operators", "C15.eq_consistent"])],
+        "pre": [tlaps_lemmas],
         "exhaustive": True,
         "rule": "all ordered pairs of intervals over the chain x 9 element types through partial_cmp and the five "
                 "operators; transitivity / antisymmetry of the definition checked on all triples by MC_Interval.",
